@@ -500,7 +500,10 @@ func (gang *Gang) addBoundPod(pod *v1.Pod) {
 	}
 	delete(gang.PendingChildren, podId)
 	gang.GangGroupInfo.DeleteIfRepresentative(pod, ReasonPodBound)
-	gang.BoundChildren[podId] = pod
+	if _, isChild := gang.Children[podId]; isChild {
+		// otherwise PostBind raced with the pod's delete event: do not resurrect a member that is gone
+		gang.BoundChildren[podId] = pod
+	}
 
 	klog.Infof("AddBoundPod, gangName: %v, podName: %v", gang.Name, podId)
 	if !gang.GangGroupInfo.isGangOnceResourceSatisfied() {
